@@ -5,7 +5,7 @@ import itertools
 
 from ..program import AnalysisError, walk_local, dotted
 from ..analysis import Spec, src, class_const, const_value
-from ..rules import (cond_equiv, cond_branches, substitute_locals, canon, GWF, EXC, need_func, stores_to, is_const, eval_atom, eval_cond,
+from ..rules import (exists_form, cond_equiv, cond_branches, substitute_locals, canon, GWF, EXC, need_func, stores_to, is_const, eval_atom, eval_cond,
                      UNKNOWN, parent_map, raise_class)
 from . import common
 from .c07 import _explore
@@ -335,8 +335,9 @@ def branch_state_table(prog, an, rep):
     for q in ('is_pending', 'is_queued'):
         g = need_func(an, GH + '.AggregatedWorkflowRuns.' + q)
         lit = 'pending' if q == 'is_pending' else 'queued'
-        ok = ("elem['status'] == '%s'" % lit) in src(g.node) and \
-            '> 0' in src(g.node)
+        ex = exists_form(an, g)
+        ok = ex is not None and ex[0] == g.params[1] and \
+            cond_equiv(None, ex[2], "%s['status'] == '%s'" % (ex[1], lit))
         rep.check(ok, R, g.qname + ': any run with status %s' % lit,
                   g.where(), '%s no longer tests status == %r' % (q, lit))
 
